@@ -2668,6 +2668,112 @@ fn run_handles(rep: &Reporter, store: &AnnotationStore) -> (u64, u64) {
     (cases.load(Ordering::Relaxed), calls.load(Ordering::Relaxed))
 }
 
+/// every sequence of distinct handles of length <= 5 over {0..5}: the collection built by `Handles::from_iter` (the
+/// constructor behind `to_handles()`, which decides the sorted flag itself) must answer membership, position, add,
+/// sort and contains_subset like the plain sequence
+fn run_handles_from_iter(rep: &Reporter, store: &AnnotationStore, only: Option<&[usize]>) -> u64 {
+    fn perms(pool: &[usize], k: usize, cur: &mut Vec<usize>, out: &mut Vec<Vec<usize>>) {
+        if cur.len() == k {
+            out.push(cur.clone());
+            return;
+        }
+        for x in pool {
+            if !cur.contains(x) {
+                cur.push(*x);
+                perms(pool, k, cur, out);
+                cur.pop();
+            }
+        }
+    }
+    let pool: Vec<usize> = (0..6).collect();
+    let mut seqs: Vec<Vec<usize>> = Vec::new();
+    for k in 0..=5 {
+        perms(&pool, k, &mut Vec::new(), &mut seqs);
+    }
+    if let Some(o) = only {
+        seqs.retain(|s| s.as_slice() == o);
+    }
+    let calls = AtomicU64::new(0);
+    seqs.par_iter().enumerate().for_each(|(si, seq)| {
+        let ascending = seq.windows(2).all(|w| w[0] <= w[1]);
+        let order = if ascending { "ascending".to_string() } else { format!("order-type:{}", crate::util::order_type(&seq.iter().map(|x| *x as i64).collect::<Vec<_>>())) };
+        let fail = |sym: &str, detail: String| {
+            rep.fail(
+                &format!("handles|from_iter|{}|{}", sym, if ascending { "ascending" } else { "not-ascending" }),
+                (seq.len() * 100_000 + si) as u64,
+                || format!("Handles::from_iter({:?}) [{}]: {}", seq, order, detail),
+                || json!({"oracle": "handles-from-iter", "seq": seq}),
+            );
+        };
+        let mk = || Handles::<Annotation>::from_iter(seq.iter().map(|i| AnnotationHandle::new(*i)), store);
+        let r = catch(|| {
+            let h = mk();
+            let flag = h.returns_sorted();
+            let members: Vec<bool> = (0..7).map(|i| h.contains(&AnnotationHandle::new(i))).collect();
+            let positions: Vec<Option<usize>> = (0..7).map(|i| h.position(&AnnotationHandle::new(i))).collect();
+            let arr: Vec<usize> = h.iter().map(|x| x.as_usize()).collect();
+            // add every candidate to a fresh copy
+            let adds: Vec<Vec<usize>> = (0..7)
+                .map(|i| {
+                    let mut h2 = mk();
+                    h2.add(AnnotationHandle::new(i));
+                    h2.iter().map(|x| x.as_usize()).collect()
+                })
+                .collect();
+            let mut h3 = mk();
+            h3.sort();
+            let sorted_arr: Vec<usize> = h3.iter().map(|x| x.as_usize()).collect();
+            // every pair of members as a subset
+            let mut subset_ok = true;
+            for a in seq {
+                for b in seq {
+                    let sub = Handles::<Annotation>::from_iter([*b, *a].iter().map(|i| AnnotationHandle::new(*i)), store);
+                    subset_ok &= h.contains_subset(&sub);
+                }
+            }
+            (flag, members, positions, arr, adds, sorted_arr, subset_ok)
+        });
+        calls.fetch_add(1, Ordering::Relaxed);
+        match r {
+            Err(p) => fail(&format!("panic:{}", panic_class(&p)), p.clone()),
+            Ok((flag, members, positions, arr, adds, sorted_arr, subset_ok)) => {
+                if arr != *seq {
+                    fail("order-changed", format!("iterates as {:?}", arr));
+                }
+                if flag && !ascending {
+                    fail("flagged-sorted-but-unsorted", "returns_sorted() = true".into());
+                }
+                let want_members: Vec<bool> = (0..7).map(|i| seq.contains(&i)).collect();
+                if members != want_members {
+                    fail("contains-wrong", format!("contains(0..7) = {:?}", members));
+                }
+                let want_pos: Vec<Option<usize>> = (0..7).map(|i| seq.iter().position(|x| *x == i)).collect();
+                if positions != want_pos {
+                    fail("position-wrong", format!("position(0..7) = {:?}, expected {:?}", positions, want_pos));
+                }
+                for (i, after) in adds.iter().enumerate() {
+                    let mut want: BTreeSet<usize> = seq.iter().copied().collect();
+                    want.insert(i);
+                    let got: BTreeSet<usize> = after.iter().copied().collect();
+                    if got != want || got.len() != after.len() {
+                        fail("add-wrong", format!("after add({}) the collection is {:?}", i, after));
+                        break;
+                    }
+                }
+                let mut want_sorted = seq.clone();
+                want_sorted.sort();
+                if sorted_arr != want_sorted {
+                    fail("sort-wrong", format!("after sort() the collection is {:?}", sorted_arr));
+                }
+                if !subset_ok {
+                    fail("contains_subset-wrong", "a pair of its own members is not a subset".into());
+                }
+            }
+        }
+    });
+    calls.load(Ordering::Relaxed)
+}
+
 fn lim_class(x: isize, n: usize) -> String {
     if x == 0 {
         "zero".into()
@@ -2751,6 +2857,7 @@ pub fn run(rep: &Reporter) -> Coverage {
 
     // ---- helper collections
     let (hcases, hcalls) = run_handles(rep, &scs[0].store);
+    let hfi = run_handles_from_iter(rep, &scs[0].store, None);
     let mut lcases = 0u64;
     for n in 0..=7usize {
         for b in -8..=8isize {
@@ -2762,6 +2869,7 @@ pub fn run(rep: &Reporter) -> Coverage {
     }
     space.insert("handles".into(), json!("Handles<Annotation>::union / intersection / contains on all ordered pairs of the 64 sub-sequences of 0..6, each operand as ascending+sorted flag, ascending+unsorted flag, descending+unsorted flag"));
     space.insert("limititer".into(), json!("(0..n).limit(b,e) for n in 0..=7, b,e in -8..=8"));
+    space.insert("handles_from_iter".into(), json!(format!("Handles::from_iter on every sequence of <= 5 distinct handles over 0..6 ({} sequences): sorted flag, contains, position, add, sort, contains_subset against the plain sequence", hfi)));
 
     // ---- o1 singles + o6 + o5 on single constraints
     let tasks: Vec<(usize, usize)> = (0..scs.len()).flat_map(|s| (0..RTS.len()).map(move |r| (s, r))).collect();
@@ -3028,6 +3136,13 @@ pub fn replay(rep: &Reporter, case: &Value) {
             let (lo, hi) = pyslice(n, b, e);
             println!("  (0..{}).limit({},{}) = {:?}; Python slice = {:?}", n, b, e, limititer_indices(n, b, e), (lo..hi).collect::<Vec<_>>());
             check_limititer_case(rep, n, b, e);
+            return;
+        }
+        "handles-from-iter" => {
+            let seq: Vec<usize> = case["seq"].as_array().map(|a| a.iter().filter_map(|x| x.as_u64().map(|x| x as usize)).collect()).unwrap_or_default();
+            let scs = all_sctx();
+            println!("  Handles::from_iter({:?})", seq);
+            run_handles_from_iter(rep, &scs[0].store, Some(&seq));
             return;
         }
         "handles" => {
